@@ -103,7 +103,7 @@ CHECKS = {
              "each stream is placed in co_consts of a code object of each bytecode-version class, loaded by xdis and judged by the reference "
              "reader; the same streams are loaded by CPython 2.7 / 3.x and judged by the same reader.",
         design_ref="DESIGN.md section 5 C10, spec S1",
-        note="Budget: <= 3 tokens per stream, nesting depth 2, plus a reduced alphabet at budget 5 / depth 3 for sharing patterns (thorough: richer alphabet). "
+        note="Budget: <= 3 tokens per stream, nesting depth 2, plus a reduced alphabet at budget 5 / depth 3 for sharing patterns (thorough: richer alphabet, all six format classes). "
              "No unordered container inside another. Identity of shared "
              "objects not compared, equality at every reference site is.",
         technique="TLA+ marshal writer enumerated exhaustively by TLC; behaviours replayed into xdis and CPython; TLC reference reader as judge",
